@@ -359,7 +359,7 @@ func TestC05(t *testing.T) {
 	env := h.Env
 
 	// (a) random sessions, lifecycle checked after every step and at teardown
-	rapidCases(h, "sessions", env.PerShard(env.Pick(3000, 100000)), func(rt *rapid.T) seqCase {
+	rapidCases(h, "sessions", env.PerShard(env.Pick(12000, 200000)), func(rt *rapid.T) seqCase {
 		return seqCase{Native: rapid.Bool().Draw(rt, "native"), Prefix: 0, Life: true, Reqs: genSessionReqs(rt, 40)}
 	}, func(c seqCase) *fail {
 		st := &seqStats{}
@@ -378,7 +378,7 @@ func TestC05(t *testing.T) {
 		}
 		return f
 	})
-	rapidCases(h, "path-sessions", env.PerShard(env.Pick(1500, 50000)), func(rt *rapid.T) pathCase {
+	rapidCases(h, "path-sessions", env.PerShard(env.Pick(6000, 100000)), func(rt *rapid.T) pathCase {
 		c := pathCase{Conns: rapid.IntRange(1, 2).Draw(rt, "conns"), Native: rapid.Bool().Draw(rt, "native"), Tree: "deep", Life: true}
 		m := refmodel.New(c.Conns)
 		populateDeep(m.Tree)
